@@ -126,7 +126,14 @@ def cross_process(ctx):
                           "%s(random_state=7): the same search gives different search_data in two interpreter processes started with PYTHONHASHSEED=1 and 2" % n)
 
 
+def pre_build(ctx):
+    import gen_units
+    gen_units.pre_build(ctx, "translate_seed")
+
+
 def run(ctx):
+    import gen_units
+    gen_units.g_unit(ctx, "translate_seed")
     u = ctx.unit("K:seeding events of construction", "K",
                  "constructing every optimizer class (random_state in {None, int}, nth_process in {None, 0, 2}, populations, "
                  "Powell, both grid directions): the logged sequence of random.seed / numpy.random.seed / numpy randint(0, 2**31-2) "
